@@ -529,8 +529,8 @@ def check_memo_keys(prog, run, rule_id="H2"):
     r = run.rule(rule_id, "every per-request memo table (try: return self.C[key] / except KeyError: compute and store) is keyed by "
                        "every parameter its computation depends on: a parameter used in the miss branch but absent from the key "
                        "makes two different requests share one entry; each key component stands for a whole parameter (the parameter, "
-                       "tuple()/frozenset() of it, or the name of a named schema type), never for a lossy projection of it (id(), "
-                       "str(), len(), the class: see Z7)", 4)
+                       "tuple()/frozenset() of it, id() of a schema object or document node the request keeps alive, or the name of a "
+                       "named schema type), never for a lossy projection of it (str(), len(), the class: see Z7)", 4)
     for modname, cname in ((WRAP, "ResolutionContext"), (EXE, "Executor")):
         cls = prog.get_class(modname, cname)
         for m, cache, key, handler in memo_sites(cls):
@@ -584,7 +584,7 @@ def check_memo_keys(prog, run, rule_id="H2"):
                 names = {y.id for y in ast.walk(comp) if isinstance(y, ast.Name)} & params & direct
                 for pn in sorted(names):
                     lossless = (isinstance(comp, ast.Name) and comp.id == pn) or (
-                        isinstance(comp, ast.Call) and isinstance(comp.func, ast.Name) and comp.func.id in ("tuple", "frozenset")
+                        isinstance(comp, ast.Call) and isinstance(comp.func, ast.Name) and comp.func.id in ("tuple", "frozenset", "id")
                         and len(comp.args) == 1 and isinstance(comp.args[0], ast.Name) and comp.args[0].id == pn) or (
                         isinstance(comp, ast.Attribute) and comp.attr == "name" and isinstance(comp.value, ast.Name) and comp.value.id == pn
                         and ann.get(pn, "").endswith("Type"))
